@@ -14,6 +14,9 @@
     providers: the serial execution is `Placement.run` of the handlers (`Model/Handlers.lean`).
   * `no_joint_overcommit_guarded`: nothing is over-committed after the concurrent run that is not
     over-committed after that serial execution.
+  * `errors_have_no_effect_alloc_writes`: pools of PUT / POST allocation writes whose entries carry
+    consumer generations (nobody creates a consumer): every step that does not finish a request with
+    2xx leaves the state unchanged - "every request answered with an error has no effect".
   * `C07_witness_transient_consumer` / `C07_full_false`: with allocation writes for a consumer that
     does not exist in the start state serializability FAILS (known findings I, C): the consumer
     created by one request's `ensure_consumer` transaction is visible to the others, and a failing
@@ -23,6 +26,7 @@
     of the file for what is missing).
 -/
 import Placement.Lemmas.SchedSerRp
+import Placement.Lemmas.SchedQuiet
 import Placement.Lemmas.WfExample
 
 namespace Placement.Props.C07
@@ -114,6 +118,31 @@ theorem no_joint_overcommit_guarded (cfg : Config) (ops : List (Op R))
     OverCommitted (run cfg db (opsAt ops (okOrder Resp.ok sched db (ops.map (prog cfg))))).1 rp rc := by
   rw [(guarded_updates_serializable cfg ops hops db hU sched).1]
 
+/-- **errors_have_no_effect_alloc_writes.**  Any number of PUT /allocations/{c} and POST /allocations
+requests (>= 1.28) in flight together, for ANY consumers, each entry carrying a consumer generation
+(so that no request creates a consumer) and naming projects, users and consumer types that exist in the
+start state (`allocWriteAux`, Lemmas/SchedQuiet.lean).  Under every schedule, every scheduling step
+that does not finish a request with a 2xx answer leaves the whole state unchanged: a request answered
+with an error (stale consumer or provider generation, capacity exceeded, unknown provider, ...) has
+no effect, and the reads of the successful requests have none either. -/
+theorem errors_have_no_effect_alloc_writes (cfg : Config) (ops : List (Op R)) (Ps Us Ts : List Nat)
+    (hops : ∀ op ∈ ops, allocWriteAux cfg Ps Us Ts op) (db : DB R)
+    (hdb : (∀ p ∈ Ps, p ∈ db.projects) ∧ (∀ u ∈ Us, u ∈ db.users) ∧ (∀ t ∈ Ts, t ∈ db.ctypes)) (sched : List Nat) :
+    ∀ pre j post, sched = pre ++ j :: post →
+      finishesOk Resp.ok (Prog.runSched pre db (ops.map (prog cfg))).2 j (Prog.runSched pre db (ops.map (prog cfg))).1 = false →
+      (Prog.runSched (pre ++ [j]) db (ops.map (prog cfg))).1 = (Prog.runSched pre db (ops.map (prog cfg))).1 := by
+  intro pre j post hs hf
+  have hq := quo_quietElse (W := WAux (R := R) Ps Us Ts) (ok := Resp.ok) sched db (ops.map (prog cfg)) hdb (by
+    intro i p hp
+    rw [List.getElem?_map] at hp
+    cases hg : ops[i]? with
+    | none => rw [hg] at hp; cases hp
+    | some op =>
+      rw [hg] at hp
+      cases hp
+      exact allocWriteAux_qa cfg (hops op (List.mem_of_getElem? hg)))
+  exact quietElse_split pre j post db _ (hs ▸ hq) hf
+
 /-! ## The hypotheses are satisfiable -/
 
 section examples
@@ -132,6 +161,27 @@ example : ∀ op ∈ exPool, guardedUpdate op = true := by decide
 
 /-- all read first, then the writes in the order 3, 1, 0, 2, 4: requests 3 and 1 succeed, in that order -/
 example : okOrder Resp.ok [0, 1, 2, 3, 4, 3, 1, 0, 2] exDb (exPool.map (prog exCfg)) = [3, 1] := by decide
+
+def exW (n : Int) : ConsumerReq :=
+  { uuid := 500, project := some 7, user := some 8, ctype := none, gen := some 1, allocs := [(101, 0, n)] }
+
+/-- three writes to consumer 500 (one of them beyond capacity) -/
+def exPoolA : List (Op Nat) := [.allocPut 39 (exW 3), .allocPut 39 (exW 9), .allocPost 39 [exW 4]]
+
+example : ∀ op ∈ exPoolA, allocWriteAux exCfg [7] [8] [] op := by
+  intro op hop
+  simp only [exPoolA, List.mem_cons, List.mem_nil_iff, or_false] at hop
+  rcases hop with rfl | rfl | rfl
+  · exact ⟨by decide, rfl, by decide, by decide, fun t h => by cases h⟩
+  · exact ⟨by decide, rfl, by decide, by decide, fun t h => by cases h⟩
+  · refine ⟨by decide, fun c hc => ?_⟩
+    rw [List.mem_singleton.mp hc]
+    exact ⟨rfl, by decide, by decide, fun t h => by cases h⟩
+example : (∀ p ∈ [7], p ∈ exDb.projects) ∧ (∀ u ∈ [8], u ∈ exDb.users) ∧ (∀ t ∈ ([] : List Nat), t ∈ exDb.ctypes) := by
+  decide
+/-- request 1 is refused (capacity), request 0 wins, request 2 loses the consumer generation -/
+example : (Prog.runSched [1, 1, 1, 1, 1, 0, 0, 0, 2, 2, 2, 0, 0, 2, 2] exDb (exPoolA.map (prog exCfg))).2.map Prog.result? =
+    [some r204, some r409, some (r409 .concurrentUpdate)] := by decide
 
 end examples
 
